@@ -11,13 +11,23 @@ mod c08;
 mod c12;
 mod c13;
 mod c16;
+mod c17;
 mod c18;
+
+/// ant-cli's wallet modules live in a binary crate; compile the real sources from /repo in.
+#[allow(dead_code)]
+mod wallet {
+    #[path = "/repo/ant-cli/src/wallet/error.rs"]
+    pub mod error;
+    #[path = "/repo/ant-cli/src/wallet/encryption.rs"]
+    pub mod encryption;
+}
 
 use common::{Check, Opts, Tier};
 use std::path::PathBuf;
 
 fn registry() -> Vec<Box<dyn Check>> {
-    vec![Box::new(c08::C08), Box::new(c12::C12), Box::new(c13::C13), Box::new(c16::C16), Box::new(c18::C18)]
+    vec![Box::new(c08::C08), Box::new(c12::C12), Box::new(c13::C13), Box::new(c16::C16), Box::new(c17::C17), Box::new(c18::C18)]
 }
 
 thread_local! {
